@@ -69,13 +69,13 @@ inductive ValForm
   | localPlain (sym : Str)             -- ValueOf(Sym)               (file inside the package itself)
   | localAddr (sym : Str)              -- ValueOf(&Sym).Elem()
   | localConv (ty sym : Str)           -- ValueOf(T(Sym))
-  | opaque
+  | opaq
   deriving Repr, DecidableEq, Inhabited
 
 inductive TypeForm
   | named (pkg sym : Str)              -- TypeOf((*pkg.Sym)(nil)).Elem()
   | localNamed (sym : Str)             -- TypeOf((*Sym)(nil)).Elem()
-  | opaque
+  | opaq
   deriving Repr, DecidableEq, Inhabited
 
 structure BindE where
@@ -121,7 +121,7 @@ structure FieldDecl where
 inductive Arg
   | recvField (recv field : Str)       -- P.Object
   | ident (name : Str) (ellipsis : Bool)
-  | opaque
+  | opaq
   deriving Repr, DecidableEq, Inhabited
 
 structure Call where
@@ -133,7 +133,7 @@ structure Call where
 inductive Body
   | ret (c : Call)                     -- { return P.F(args) }
   | expr (c : Call)                    -- { P.F(args) }
-  | opaque
+  | opaq
   deriving Repr, Inhabited
 
 structure MethodDecl where
@@ -159,6 +159,7 @@ inductive FileKind
 
 structure FileTbl where
   file : Str
+  active : Bool                        -- compiled on the platform of the check (build constraints)
   kind : FileKind
   ownPath : Str                        -- import path of the Go package the file belongs to
   reflectAliases : List Str            -- aliases under which "reflect" is imported (`.` = dot import)
@@ -177,9 +178,10 @@ structure FileTbl where
 def lookupAlias (f : FileTbl) (a : Str) : Option Str :=
   (f.aliases.find? (fun p => p.1 == a)).map (·.2)
 
+/-- "int", "int8", ..., "uintptr", "float32", "float64" (as `Str` literals: `String.toUTF8` does not
+    reduce in the kernel; the driver op `selftest` prints them back) -/
 def basicConvTypes : List Str :=
-  ["int", "int8", "int16", "int32", "int64", "uint", "uint8", "uint16", "uint32", "uint64",
-   "uintptr", "float32", "float64"].map Str.ofString
+  [0x1696e74, 0x1696e7438, 0x1696e743136, 0x1696e743332, 0x1696e743634, 0x175696e74, 0x175696e7438, 0x175696e743136, 0x175696e743332, 0x175696e743634, 0x175696e74707472, 0x1666c6f61743332, 0x1666c6f61743634]
 
 /-- the package a symbol reference denotes, and the symbol -/
 def ValForm.target (f : FileTbl) : ValForm → Option (Str × Str)
@@ -188,12 +190,12 @@ def ValForm.target (f : FileTbl) : ValForm → Option (Str × Str)
   | .localPlain s | .localAddr s => if f.kind == .inception then some (f.ownPath, s) else none
   | .localConv t s =>
     if f.kind == .inception && basicConvTypes.contains t then some (f.ownPath, s) else none
-  | .opaque => none
+  | .opaq => none
 
 def TypeForm.target (f : FileTbl) : TypeForm → Option (Str × Str)
   | .named p s => (lookupAlias f p).map (·, s)
   | .localNamed s => if f.kind == .inception then some (f.ownPath, s) else none
-  | .opaque => none
+  | .opaq => none
 
 /-- the bind denotes symbol `key` of package `path` -/
 def bindOk (f : FileTbl) (e : BindE) : Bool := e.form.target f == some (e.path, e.key)
@@ -208,8 +210,8 @@ def declaresPkg (f : FileTbl) (path : Str) : Bool := f.pkgs.any (·.1 == path)
 
 /-! ### proxies -/
 
-def interfaceEmpty : Str := Str.ofString "interface{}"
-def objectName : Str := Str.ofString "Object"
+def interfaceEmpty : Str := 0x1696e746572666163657b7d  -- "interface{}"
+def objectName : Str := 0x14f626a656374  -- "Object"
 
 def paramNames (ps : List Param) : List Str := ps.map (·.name)
 def paramTypes (ps : List Param) : List (Str × Bool) := ps.map (fun p => (p.ty, p.variadic))
@@ -226,7 +228,7 @@ def variadicOnlyLast : List Param → Bool
 def methodOk (d : ProxyDecl) (m : MethodDecl) : Bool :=
   m.recvType == d.name &&
   (paramNames m.params).Nodup &&
-  (paramNames m.params).all (fun n => n != Str.empty && n != m.recvName && n != Str.ofString "_") &&
+  (paramNames m.params).all (fun n => n != Str.empty && n != m.recvName && n != 0x15f /- "_" -/) &&
   variadicOnlyLast m.params &&
   (match d.fields.find? (fun fd => fd.name == Str.underscore m.name) with
    | none => false
@@ -241,7 +243,7 @@ def methodOk (d : ProxyDecl) (m : MethodDecl) : Bool :=
    match m.body with
    | .ret c' => !m.results.isEmpty && c'.recv == c.recv && c'.field == c.field && c'.args == c.args
    | .expr c' => m.results.isEmpty && c'.recv == c.recv && c'.field == c.field && c'.args == c.args
-   | .opaque => false)
+   | .opaq => false)
 
 /-- one func field `M_` per method `M` and nothing else but `Object interface{}` first -/
 def proxyOk (d : ProxyDecl) : Bool :=
@@ -311,30 +313,42 @@ def untypedDecode (s : Str) : Option UVal :=
   match splitAt 58 (Str.bytes s) with
   | none => none
   | some (k, v) =>
-    if k == Str.bytes (Str.ofString "bool") then
-      if v == Str.bytes (Str.ofString "true") then some (.bool true)
-      else if v == Str.bytes (Str.ofString "false") then some (.bool false) else none
-    else if k == Str.bytes (Str.ofString "int") then (parseInt v).map .int
-    else if k == Str.bytes (Str.ofString "rune") then (parseInt v).map .rune
-    else if k == Str.bytes (Str.ofString "float") then (parseRat v).map (fun p => .float p.1 p.2)
-    else if k == Str.bytes (Str.ofString "complex") then
+    if k == [98, 111, 111, 108] /- bool -/ then
+      if v == [116, 114, 117, 101] /- true -/ then some (.bool true)
+      else if v == [102, 97, 108, 115, 101] /- false -/ then some (.bool false) else none
+    else if k == [105, 110, 116] /- int -/ then (parseInt v).map .int
+    else if k == [114, 117, 110, 101] /- rune -/ then (parseInt v).map .rune
+    else if k == [102, 108, 111, 97, 116] /- float -/ then (parseRat v).map (fun p => .float p.1 p.2)
+    else if k == [99, 111, 109, 112, 108, 101, 120] /- complex -/ then
       match splitAt 58 v with
       | none => none
       | some (re, im) =>
         match parseRat re, parseRat im with
         | some a, some b => some (.complex a.1 a.2 b.1 b.2)
         | _, _ => none
-    else if k == Str.bytes (Str.ofString "string") then some (.string v)
+    else if k == [115, 116, 114, 105, 110, 103] /- string -/ then some (.string v)
     else none
 
-/-- the untyped string decodes, and the same name is bound (loadBinds consults `Untypeds` only for
-    names present in `Binds`) by a constant-shaped expression -/
-def untypedOk (f : FileTbl) (e : UntypedE) : Bool :=
-  (untypedDecode e.val).isSome &&
-  f.binds.any (fun ch => ch.any (fun b => b.path == e.path && b.key == e.key &&
-    (match b.form with
-     | .plain .. | .conv .. | .localPlain .. | .localConv .. => true
-     | _ => false)))
+/-- `us` is a subsequence of `bs` (same relative order; both maps are emitted in sorted key order by
+    the generator).  Linear, unlike a membership test per entry: the syscall tables have ~2500 binds
+    and ~1500 untyped constants each. -/
+def subseqKeys : List (Str × Str) → List (Str × Str) → Bool
+  | _, [] => true
+  | [], _ :: _ => false
+  | b :: bs, u :: us => if b == u then subseqKeys bs us else subseqKeys bs (u :: us)
+
+def constShaped : ValForm → Bool
+  | .plain .. | .conv .. | .localPlain .. | .localConv .. => true
+  | _ => false
+
+/-- the untyped string decodes -/
+def untypedOk (e : UntypedE) : Bool := (untypedDecode e.val).isSome
+
+/-- every name with an untyped string is bound (the loader consults `Untypeds` only for names present
+    in `Binds`) by a constant-shaped expression -/
+def untypedsBound (f : FileTbl) : Bool :=
+  subseqKeys ((f.binds.flatten.filter (fun b => constShaped b.form)).map (fun b => (b.path, b.key)))
+    (f.untypeds.flatten.map (fun e => (e.path, e.key)))
 
 /-- wrapper lists: for a type listed in `Types`, non-empty, duplicate free -/
 def wrapperOk (f : FileTbl) (e : WrapperE) : Bool :=
@@ -346,7 +360,8 @@ def fileOk (f : FileTbl) : Bool :=
   f.binds.all (·.all (fun e => declaresPkg f e.path && bindOk f e)) &&
   f.types.all (·.all (fun e => declaresPkg f e.path && typeOk f e)) &&
   f.proxies.all (·.all (fun e => declaresPkg f e.path && proxyEntryOk f e)) &&
-  f.untypeds.all (·.all (fun e => declaresPkg f e.path && untypedOk f e)) &&
+  f.untypeds.all (·.all (fun e => declaresPkg f e.path && untypedOk e)) &&
+  untypedsBound f &&
   f.wrappers.all (·.all (fun e => declaresPkg f e.path && wrapperOk f e)) &&
   f.decls.all proxyOk &&
   (f.decls.map (·.name)).Nodup
@@ -371,7 +386,7 @@ def lookupVar {V : Type} (env : List (Str × V)) (n : Str) : Option V :=
 def evalArg {V σ : Type} (recv : Str) (p : Proxy V σ) (env : List (Str × V)) : Arg → Option V
   | .recvField r fld => if r == recv && fld == objectName then some p.object else none
   | .ident n _ => lookupVar env n
-  | .opaque => none
+  | .opaq => none
 
 def evalArgs {V σ : Type} (recv : Str) (p : Proxy V σ) (env : List (Str × V)) : List Arg → Option (List V)
   | [] => some []
@@ -394,7 +409,7 @@ def runMethod {V σ : Type} (m : MethodDecl) (p : Proxy V σ) (args : List V) (s
   match m.body with
   | .ret c => evalCall m p env c s
   | .expr c => (evalCall m p env c s).map (fun r => ([], r.2))
-  | .opaque => none
+  | .opaq => none
 
 def findMethod (d : ProxyDecl) (name : Str) : Option MethodDecl :=
   d.methods.find? (fun m => m.name == name)
@@ -414,13 +429,13 @@ def traceMethod (m : MethodDecl) : Option (Str × List Nat × Bool) :=
     match a with
     | .recvField r fld => if r == m.recvName && fld == objectName then some 0 else none
     | .ident n _ => (m.params.findIdx? (fun p => p.name == n)).map (· + 1)
-    | .opaque => none
+    | .opaq => none
   let go (c : Call) (returns : Bool) : Option (Str × List Nat × Bool) :=
     if c.recv != m.recvName then none else
     (c.args.mapM idx).map (fun l => (c.field, l, returns))
   match m.body with
   | .ret c => go c true
   | .expr c => go c false
-  | .opaque => none
+  | .opaq => none
 
 end Imports
